@@ -245,7 +245,9 @@ def m_outgroup_zero_cut(case):
     if g is None or len(kids(g)) != 2 or any(e["len"] is not None for e, _ in kids(g)):
         return False
     side = frozenset(leaves(kids(g)[0][1]))
-    return _sides(t).get(side, 1) == 0 and \
+    allv = frozenset(leaves(t))
+    zero = any(e["len"] == 0 and frozenset(leaves(c)) in (side, allv - side) for e, c in all_edges(t))
+    return (_sides(t).get(side, 1) == 0 or zero) and \
         ("split length changed" in _msg(case) or "equal halves" in _msg(case))
 
 def m_outgroup_remove_nonmono(case):
